@@ -189,6 +189,9 @@ func rekey(n *Node, v Val, keyOf func(Field) string) any {
 // lists as repeated parameters, nested struct fields resolved against the same
 // flat source by their own key.
 func flatPairs(n *Node, v Val, keyOf func(Field) string, out url.Values, order *[]string) error {
+	for n.Kind == KPtr {
+		n = n.Elem
+	}
 	if n.Kind != KStruct || (v.T != "map" && !v.IsNil()) {
 		return fmt.Errorf("flat sources need a struct record")
 	}
@@ -217,9 +220,9 @@ func flatPairs(n *Node, v Val, keyOf func(Field) string, out url.Values, order *
 				if len(kv.V.L) == 0 {
 					return fmt.Errorf("a flat source cannot express an empty list")
 				}
-				if len(kv.V.L) == 1 {
+				if len(kv.V.L) == 1 && !strings.HasSuffix(key, "[]") {
 					if s, _ := scalarString(kv.V.L[0]); strings.TrimSpace(s) == "" {
-						return fmt.Errorf("a flat source cannot express a one-element list whose element is empty")
+						return fmt.Errorf("a flat source cannot express a one-element list whose element is empty (unless the key ends in [])")
 					}
 				}
 				for _, e := range kv.V.L {
@@ -268,6 +271,9 @@ func flatKeyCollision(n *Node, keyOf func(Field) string, seen map[string]bool) s
 // value as a string, a repeated one as a list, a missing one absent; nested
 // struct schemas see the same flat record.
 func flatSpecIn(n *Node, vals url.Values, keyOf func(Field) string, trim bool) map[string]any {
+	for n.Kind == KPtr {
+		n = n.Elem
+	}
 	out := map[string]any{}
 	var walk func(n *Node)
 	walk = func(n *Node) {
@@ -288,6 +294,8 @@ func flatSpecIn(n *Node, vals url.Values, keyOf func(Field) string, trim bool) m
 				if trim {
 					out[key] = "" // the environment presents an unset variable as ""
 				}
+			case len(vs) == 1 && strings.HasSuffix(key, "[]") && !trim:
+				out[key] = []any{vs[0]} // a []-suffixed parameter is presented as a list even when it occurs once
 			case len(vs) == 1:
 				if trim {
 					out[key] = strings.TrimSpace(vs[0])
